@@ -376,7 +376,7 @@ def _replay_s2_integral(case, clause, model, seed):
 RU = "PyMatterSim.reader.reader_utils"
 
 
-def make_snapshots(ctx, name, T, N, d, with_cell=False, with_types=False, K=None):
+def make_snapshots(ctx, name, T, N, d, typ=None):
     """Snapshots object whose frame list has symbolic length T; frame n is a SingleSnapshot with
     positions[i, c] = <name>_pos(n, i, c), particle_type[i] = <name>_type(n, i), hmatrix[a, b] = <name>_H(n, a, b);
     nparticle and boxlength are the same in every frame (the functions assert it)"""
@@ -395,8 +395,8 @@ def make_snapshots(ctx, name, T, N, d, with_cell=False, with_types=False, K=None
     def pos(n, i, c):
         return sv.SV(posf(sv.znum(n), sv.znum(i), sv.znum(c)))
 
-    def typ(n, i):
-        return sv.SV(typf(sv.znum(n), sv.znum(i)))
+    raw_typ = lambda n, i: sv.SV(typf(sv.znum(n), sv.znum(i)))
+    typ = typ or raw_typ
 
     def H(n, a, b):
         return sv.SV(hf(sv.znum(n), sv.znum(a), sv.znum(b)))
@@ -861,7 +861,326 @@ def _replay_tetra(case, clause, model, seed):
     return {"ran": True, "failed": False, "searched": len(cases)}
 
 
-UNITS = [Gyration(), S2Integral(), Nematic(), Tetrahedral()]
+# =====================================================================================================
+# pair entropy
+
+
+def masked_accumulation_summary(interp, s, frame, st, lo, hi, item_fn):
+    """WRITTEN loop summary for `for ... in enumerate(<boolean-mask selection>): acc += f(item)`:
+    acc_after = acc_before + sum_{t in [lo,hi)} [mask(t)] * delta(t), delta(t) obtained by executing the real body once at a
+    symbolic underlying position t under the guard mask(t) with the accumulator havocked.  The summary is checked like
+    the synthesised ones: the body is run again from state(t) and compared with state(t+1) (guard true), state(t) is
+    compared with state(t+1) (guard false), state(lo) with the pre-state."""
+    import z3
+    from pyvc import loops as LP
+    from pyvc.interp import Frame
+    from pyvc.state import use_state
+    guard = item_fn.guard
+    where = f"{frame.fname}:{s.lineno}"
+    targets = LP._assigned_names([ast.Assign(targets=[s.target], value=ast.Constant(0))])
+    modified = LP._assigned_names(s.body)
+    carried = [nm for nm in sorted(modified) if nm in frame.env and nm not in targets]
+    if len(carried) != 1:
+        raise sv.EngineError(f"masked accumulation summary: exactly one accumulator expected, found {carried}")
+    acc = carried[0]
+    pre = frame.env[acc]
+    pre_heap = dict(st.heap)
+
+    def run(env, t):
+        fr = Frame(frame.module, dict(env), frame.fname)
+        st2 = st.fork()
+        st2.pc = list(st.pc) + [sv.zb(sv.cmp(">=", t, lo)), sv.zb(sv.cmp("<", t, hi)), sv.zb(guard(t))]
+        st2.events = []
+        with use_state(st2):
+            interp.assign(s.target, item_fn(t), fr)
+            outs = interp.exec_block_paths(s.body, fr, st2)
+        normal = [(f, x) for f, x, o in outs if o[0] in ("normal", "continue")]
+        for f, x, o in outs:
+            if o[0] == "raise":
+                st.side.append(LP._side_infeasible(x, f"loop-body-raises:{o[1]}", where))
+            elif o[0] not in ("normal", "continue"):
+                raise sv.EngineError("masked accumulation summary: body leaves the loop")
+        if len(normal) != 1:
+            raise sv.EngineError("masked accumulation summary: body forks")
+        f, x = normal[0]
+        touched = [sid for sid in x.heap if sid in pre_heap and x.heap[sid] is not pre_heap[sid]]
+        if touched:
+            raise sv.EngineError("masked accumulation summary: body stores into existing arrays")
+        return f, x
+    if not sv.is_scalar(sv.norm(pre)):
+        raise sv.EngineError("masked accumulation summary: scalar initial value expected")
+    # discovery: accumulator havocked
+    t = sv.fresh_int("mt")
+    h = sv.fresh_real("hacc")
+    env = dict(frame.env)
+    env[acc] = h
+    f1, x1 = run(env, t)
+    post = f1.env.get(acc)
+    if not isinstance(post, A.Arr):
+        raise sv.EngineError("masked accumulation summary: array-valued accumulator expected")
+    with use_state(x1):
+        shape = tuple(post.shape)
+        idx = tuple(sv.fresh_int("ak") for _ in shape)
+        delta = sv.sub(post.get(idx), h)
+    dts = [z3.simplify(z) for z in LP._terms_of(delta)]
+    if any(LP._contains_any(z, {h.t.get_id()}, set()) for z in dts) or any(LP._contains_any(z, {t.t.get_id()}, set()) for dd in shape for z in LP._terms_of(dd)):
+        raise sv.EngineError("masked accumulation summary: not an accumulation")
+    idz = [x.t for x in idx]
+
+    def state_at(k):
+        def fn(ix, k=k):
+            pairs = [(a, sv.znum(b)) for a, b in zip(idz, ix)]
+            return sv.add(pre, Sum(lo, k, lambda u: sv.ite(guard(u), LP._subst_val(delta, pairs + [(t.t, sv.znum(u))]), 0)))
+        return A.new_arr(shape, fn, "float")
+    # step check from state(t2)
+    t2 = sv.fresh_int("mu")
+    env2 = dict(frame.env)
+    env2[acc] = state_at(t2)
+    nxt = state_at(A.simp(sv.add(t2, 1)))
+    f2, x2 = run(env2, t2)
+    y = tuple(sv.fresh_int("ay") for _ in shape)
+    rng = z3.And(*[sv.zb(sv.and_(sv.cmp(">=", a, 0), sv.cmp("<", a, dd))) for a, dd in zip(y, shape)])
+    with use_state(x2):
+        got = f2.env[acc]
+        g_true = [z3.Implies(rng, g) for g in LP._eq_goals(got.get(y), nxt.get(y))] if isinstance(got, A.Arr) else [z3.BoolVal(False)]
+    st.side.append(LP._SideGoal("loop-step", z3.And(*g_true), x2.all_assumptions(), where))
+    cur_t = env2[acc]
+    g_false = [z3.Implies(rng, g) for g in LP._eq_goals(cur_t.get(y), nxt.get(y))]
+    st.side.append(LP._SideGoal("loop-step(guard-false)", z3.And(*g_false),
+                                st.all_assumptions() + [sv.zb(sv.cmp(">=", t2, lo)), sv.zb(sv.cmp("<", t2, hi)), z3.Not(sv.zb(guard(t2)))], where))
+    init = state_at(lo)
+    st.side.append(LP._SideGoal("loop-init", z3.And(*[z3.Implies(rng, g) for g in LP._eq_goals(init.get(y), pre)]), st.all_assumptions(), where))
+    frame.env[acc] = state_at(hi)
+    for nm in sorted(modified | targets):
+        if nm != acc:
+            frame.env.pop(nm, None)      # last values of the body's temporaries are not provided
+
+
+def gaussian(x, sigma, M=sv):
+    """exp(-x^2 / (2 sigma^2)) / sqrt(2 pi sigma^2)"""
+    s2 = M.mul(2, M.mul(sigma, sigma))
+    return M.div(M.exp(M.neg(M.div(M.mul(x, x), s2))), M.sqrt(M.mul(s2, M.PI)))
+
+
+def s2_summary(interp, args, kwargs):
+    """callee contract of s2_integral (proved by its own unit): trapezoid integral of (g ln g - g + 1) r^(d-1)"""
+    from pyvc.lib import _arr
+    g, r = _arr(args[0], interp), _arr(args[1], interp)
+    d = kwargs.get("ndim", args[2] if len(args) > 2 else 3)
+    A.require_dim_eq(g.shape[0], r.shape[0], "call:s2_integral:pre")
+    gr, rr = g.reader(), r.reader()
+    return trapezoid(lambda k: s2_integrand(gr((A.simp(k),)), rr((A.simp(k),)), int(d)), lambda k: rr((A.simp(k),)), g.shape[0], M=SVM)
+
+
+class ParticleS2(Unit):
+    module = PAIR
+    qualname = "S2.particle_s2"
+    prop = "C17"
+    timeout = 10
+    solver_opts = {"uf_abstraction": True}
+    summaries = {"PyMatterSim.utils.pbc.remove_pbc": pbc_summary, PAIR + ".s2_integral": s2_summary}
+    loop_hints = {(PAIR + ".S2.particle_s2", "for", "enumerate(distance)"): masked_accumulation_summary}
+
+    def cases(self):
+        return [f"d={d}/{g}" for d in (2, 3) for g in ("s2-only", "savegr")]
+
+    def setup(self, ctx, case):
+        d = int(case[2])
+        savegr = case.endswith("savegr")
+        T, N, K, nb = ctx.int("T"), ctx.int("N"), ctx.int("K"), ctx.int("ndelta")
+        for c in (T >= 1, N >= 2, K >= 1, nb >= 2):
+            ctx.assume(c)
+        rd, rho = ctx.real("rdelta"), ctx.real("rho")
+        ctx.assume(rd > 0)
+        ctx.assume(rho > 0)
+        snaps, acc = make_snapshots(ctx, "trj", T, N, d)
+        raw_typ = acc["typ"]
+        acc["typ"] = lambda n, i: sv.maxv(1, sv.minv(raw_typ(n, i), K))      # species ids are 1..K (by construction)
+        snaps, acc2 = make_snapshots(ctx, "trj", T, N, d, typ=acc["typ"])
+        acc2["typ"] = acc["typ"]
+        acc = acc2
+        sig = ctx.array("sigmas", (K, K), "float", origin="argument sigmas")
+        ppp = ctx.array("ppp", (d,), "int", origin="argument ppp")
+        pl = [ppp.get((c,)) for c in range(d)]
+        for x in pl:
+            ctx.assume(sv.or_(sv.cmp("==", x, 0), sv.cmp("==", x, 1)))
+        obj = ctx.obj(PAIR, "S2", dict(snapshots=snaps, sigmas=sig, ppp=ppp, rdelta=rd, ndelta=nb, ndim=d, nparticle=N,
+                                       boxvolume=sv.div(N, rho), rhototal=rho, s2_results=0))
+        n0, i0, b0 = ctx.int("n0"), ctx.int("i0"), ctx.int("b0")
+        inp = dict(d=d, T=T, N=N, K=K, nb=nb, rd=rd, rho=rho, acc=acc, sig=sig.reader(), sigarr=sig, pl=pl, ppp=ppp, self=obj, n0=n0, i0=i0, b0=b0, savegr=savegr)
+        return [obj], dict(savegr=savegr, outputfile=("s2.npy" if savegr else "")), inp
+
+    def clause_names(self, case):
+        names = ["result-shape=[nsnapshots,nparticle]", "S2_i=-(d-1)*pi*rho*trapezoid((g ln g - g + 1) r^(d-1))-with-g-the-Gaussian-smeared-pair-distribution",
+                 "lemma:others-enumeration-is-a-bijection-onto-{j!=i}", "lemma:r_max=(ndelta-1/2)*rdelta", "self.s2_results=returned", "frame:inputs-not-written"]
+        if case.endswith("savegr"):
+            names += ["particle_gr[n,i,b]=g_i(r_b)", "saved-files=returned-arrays"]
+        return names
+
+    # ---- the documented definition
+    def g_spec(self, inp, n, i, b, rmax):
+        """g_i(r_b) = (1/norm_b) sum_{j != i, |D_ij| < r_max} G_{sigma(t_i,t_j)}(r_b - |D_ij|); the particles j != i are
+        enumerated as j(t) = t + [t >= i], t in [0, N-1) (a bijection onto {j != i}: lemma clause)"""
+        d, N, acc, pl, rd, rho = inp["d"], inp["N"], inp["acc"], inp["pl"], inp["rd"], inp["rho"]
+        rb = sv.add(sv.mul(b, rd), sv.div(rd, 2))
+        norm_b = sv.mul(sv.mul(sv.mul(2, rb), rho), sv.PI) if d == 2 else sv.mul(sv.mul(sv.mul(4, sv.mul(rb, rb)), rho), sv.PI)
+        ti = sv.sub(acc["typ"](n, i), 1)
+
+        def term(t):
+            j = sv.ite(sv.cmp("<", t, i), t, A.simp(sv.add(t, 1)))
+            dist = vnorm(min_image(acc, pl, d, n, i, j))
+            sigma = inp["sig"]((ti, sv.sub(acc["typ"](n, j), 1)))
+            return sv.ite(sv.cmp("<", dist, rmax), gaussian(sv.sub(rb, dist), sigma), 0)
+        return sv.div(Sum(0, A.simp(sv.sub(N, 1)), term), norm_b), rb
+
+    def ensures(self, ctx, case, inp, out):
+        d, T, N, nb, rd, rho, n0, i0, b0 = inp["d"], inp["T"], inp["N"], inp["nb"], inp["rd"], inp["rho"], inp["n0"], inp["i0"], inp["b0"]
+        res = out.value
+        pg = None
+        if inp["savegr"]:
+            ok = isinstance(res, tuple) and len(res) == 2 and isinstance(res[0], A.Arr) and isinstance(res[1], A.Arr) and res[0].ndim == 2 and res[1].ndim == 3
+            if ok:
+                res, pg = res
+        else:
+            ok = isinstance(res, A.Arr) and res.ndim == 2
+        yield "result-shape=[nsnapshots,nparticle]", (sv.and_(sv.cmp("==", res.shape[0], T), sv.cmp("==", res.shape[1], N)) if ok else False)
+        if not ok:
+            return
+        inr = sv.and_(sv.cmp(">=", n0, 0), sv.cmp("<", n0, T), sv.cmp(">=", i0, 0), sv.cmp("<", i0, N))
+        # r_max = the largest bin centre = (ndelta - 1/2) rdelta (assumed max contract: attained at a witness position and
+        # >= the last element; rdelta > 0)
+        rmax_code = out.frame.env.get("rmax")
+        rmax = sv.mul(sv.sub(nb, sv.div(1, 2)), rd)
+        yield "lemma:r_max=(ndelta-1/2)*rdelta", (sv.cmp("==", rmax_code, rmax) if sv.is_scalar(sv.norm(rmax_code)) else False), {"solver_opts": {}}
+        # j(t) = t + [t >= i] maps [0, N-1) one-to-one onto {0..N-1} \ {i}
+        t1, t2, j1 = sv.integer("t1"), sv.integer("t2"), sv.integer("j1")
+        jt = lambda t: sv.ite(sv.cmp("<", t, i0), t, sv.add(t, 1))
+        inv = sv.ite(sv.cmp("<", j1, i0), j1, sv.sub(j1, 1))
+        rngt = lambda t: sv.and_(sv.cmp(">=", t, 0), sv.cmp("<", t, sv.sub(N, 1)))
+        yield ("lemma:others-enumeration-is-a-bijection-onto-{j!=i}", sv.implies(inr, sv.and_(
+            sv.implies(rngt(t1), sv.and_(sv.cmp(">=", jt(t1), 0), sv.cmp("<", jt(t1), N), sv.cmp("!=", jt(t1), i0))),
+            sv.implies(sv.and_(rngt(t1), rngt(t2), sv.cmp("<", t1, t2)), sv.cmp("<", jt(t1), jt(t2))),
+            sv.implies(sv.and_(sv.cmp(">=", j1, 0), sv.cmp("<", j1, N), sv.cmp("!=", j1, i0)), sv.and_(rngt(inv), sv.cmp("==", jt(inv), j1))))), {"solver_opts": {}})
+        # S2_i: with r_max replaced by the code's value (equal by the lemma clause)
+        rm = rmax_code if sv.is_scalar(sv.norm(rmax_code)) else rmax
+        g = lambda b: self.g_spec(inp, n0, i0, b, rm)
+        want = sv.mul(sv.mul(sv.mul(sv.neg(d - 1), sv.PI), rho),
+                      trapezoid(lambda k: s2_integrand(g(k)[0], g(k)[1], d), lambda k: g(k)[1], nb, M=SVM))
+        yield ("S2_i=-(d-1)*pi*rho*trapezoid((g ln g - g + 1) r^(d-1))-with-g-the-Gaussian-smeared-pair-distribution",
+               sv.implies(inr, sv.cmp("==", res.get((n0, i0)), want)))
+        stored = inp["self"].content.get("s2_results")
+        yield "self.s2_results=returned", (sv.cmp("==", stored.get((n0, i0)), res.get((n0, i0))) if isinstance(stored, A.Arr) and stored.ndim == 2 else False)
+        watch = set(inp["acc"]["input_sids"]) | {inp["sigarr"].sid, inp["ppp"].sid}
+        yield "frame:inputs-not-written", len([e for e in out.state.events if e[0] == "store" and e[1] in watch]) == 0
+        if inp["savegr"]:
+            inb = sv.and_(sv.cmp(">=", b0, 0), sv.cmp("<", b0, nb))
+            yield "particle_gr[n,i,b]=g_i(r_b)", sv.implies(sv.and_(inr, inb), sv.cmp("==", pg.get((n0, i0, b0)), g(b0)[0]))
+            saves = [e for e in out.state.trace if e[0] == "np.save"]
+            okk = len(saves) == 2 and saves[0][1] == "s2.npy" and saves[1][1] == "particle_gr.s2.npy"
+            yield ("saved-files=returned-arrays", (sv.and_(sv.cmp("==", saves[0][2].get((n0, i0)), res.get((n0, i0))),
+                                                         sv.cmp("==", saves[1][2].get((n0, i0, b0)), pg.get((n0, i0, b0)))) if okk else False))
+
+    def replay(self, case, clause, model, seed):
+        return _replay_particle_s2(case, clause, model, seed)
+
+
+def _replay_particle_s2(case, clause, model, seed):
+    import importlib
+    import math
+    import os
+    import random
+    import tempfile
+    import numpy as np
+    d = int(case[2])
+    savegr = case.endswith("savegr")
+    try:
+        mod = importlib.import_module(PAIR)
+    except Exception as e:
+        return {"ran": True, "failed": True, "detail": f"module cannot be imported: {type(e).__name__}: {e}"}
+    ru = importlib.import_module(RU)
+    rng = random.Random(seed)
+    tmp = tempfile.mkdtemp(prefix="pyvc-c17-")
+    cwd = os.getcwd()
+    os.chdir(tmp)
+    try:
+        for k in range(25):
+            T = rng.choice([1, 2])
+            N = rng.choice([2, 3, 5, 9])
+            K = rng.choice([1, 2, 3])
+            L = [rng.uniform(3, 6) for _ in range(d)]
+            tilt = rng.uniform(-1.0, 1.0) if k % 3 == 0 else 0.0
+            H = np.diag(L)
+            H[1, 0] = tilt
+            ppp = np.array([1] * d if k % 4 else [rng.randint(0, 1) for _ in range(d)])
+            rdelta = rng.choice([0.02, 0.05, 0.11])
+            ndelta = rng.choice([8, 25, 60])
+            sig = np.array([[rng.uniform(0.08, 0.3) for _ in range(K)] for _ in range(K)])
+            sig = (sig + sig.T) / 2 if k % 2 else sig         # also non-symmetric width matrices
+            frames, types = [], []
+            for n in range(T):
+                frac = np.array([[rng.random() for _ in range(d)] for _ in range(N)])
+                frames.append(frac @ H)
+                types.append(np.array([rng.randint(1, K) for _ in range(N)]))
+            fs = [ru.SingleSnapshot(timestep=n, nparticle=N, particle_type=types[n].copy(), positions=frames[n].copy(), boxlength=np.array(L),
+                                    boxbounds=np.array([[0.0, x] for x in L]), realbounds=None, hmatrix=H.copy()) for n in range(T)]
+            snaps = ru.Snapshots(nsnapshots=T, snapshots=fs)
+            inputs = {"positions": [f.tolist() for f in frames], "types": [t.tolist() for t in types], "hmatrix": H.tolist(), "ppp": ppp.tolist(),
+                      "sigmas": sig.tolist(), "rdelta": rdelta, "ndelta": ndelta}
+            try:
+                with np.errstate(all="ignore"):
+                    obj = mod.S2(snaps, sig.copy(), ppp.copy(), rdelta, ndelta)
+                    got = obj.particle_s2(savegr=savegr, outputfile=("s2.npy" if savegr else ""))
+            except Exception as e:
+                return {"ran": True, "failed": True, "searched": k + 1, "inputs": inputs, "detail": f"raises {type(e).__name__}: {e}"}
+            pg = None
+            if savegr:
+                if not (isinstance(got, tuple) and len(got) == 2):
+                    return {"ran": True, "failed": True, "inputs": inputs, "detail": "savegr=True does not return (s2, particle_gr)"}
+                got, pg = got
+            got = np.asarray(got)
+            if got.shape != (T, N):
+                return {"ran": True, "failed": True, "inputs": inputs, "detail": f"result shape {got.shape}"}
+            V = abs(np.linalg.det(H)) if tilt == 0.0 else float(np.prod(L))      # the code's density uses prod(boxlength)
+            rho = N / float(np.prod(L))
+            Hinv = np.linalg.inv(H)
+            r = np.array([(b + 0.5) * rdelta for b in range(ndelta)])
+            rmax = (ndelta - 0.5) * rdelta
+            for n in range(T):
+                for i in range(N):
+                    g = np.zeros(ndelta)
+                    for j in range(N):
+                        if j == i:
+                            continue
+                        dv = frames[n][j] - frames[n][i]
+                        m = dv @ Hinv
+                        m = m - np.round(m) * ppp
+                        dv = m @ H
+                        dist = math.sqrt(float(dv @ dv))
+                        if dist < rmax:
+                            s_ = sig[types[n][i] - 1, types[n][j] - 1]
+                            g += np.exp(-(r - dist) ** 2 / (2 * s_ * s_)) / math.sqrt(2 * math.pi * s_ * s_)
+                    g /= (2 * math.pi * rho * r) if d == 2 else (4 * math.pi * rho * r * r)
+                    if pg is not None and not np.allclose(np.asarray(pg)[n, i], g, rtol=1e-9, atol=1e-300):
+                        return {"ran": True, "failed": True, "searched": k + 1, "inputs": dict(inputs, frame=n, particle=i),
+                                "detail": "particle_gr differs from the Gaussian-smeared pair distribution"}
+                    with np.errstate(all="ignore"):
+                        y = (g * np.log(g) - g + 1) * r ** (d - 1)
+                    want = -(d - 1) * math.pi * rho * float(sum((r[b + 1] - r[b]) * (y[b + 1] + y[b]) / 2 for b in range(ndelta - 1)))
+                    if math.isnan(want) and math.isnan(got[n, i]):
+                        continue
+                    if not abs(got[n, i] - want) <= 1e-8 * (1 + abs(want)):
+                        return {"ran": True, "failed": True, "searched": k + 1, "inputs": dict(inputs, frame=n, particle=i),
+                                "detail": f"S2 = {got[n, i]}, the definition gives {want}"}
+                if not (np.array_equal(fs[n].positions, frames[n]) and np.array_equal(fs[n].particle_type, types[n])):
+                    return {"ran": True, "failed": True, "inputs": inputs, "detail": "the trajectory was modified"}
+    finally:
+        os.chdir(cwd)
+        import shutil
+        shutil.rmtree(tmp, ignore_errors=True)
+    return {"ran": True, "failed": False, "searched": 25}
+
+
+UNITS = [Gyration(), S2Integral(), Nematic(), Tetrahedral(), ParticleS2()]
 
 HELPERS = [("PyMatterSim.utils.funcs", "grid_gaussian"), ("PyMatterSim.utils.funcs", "kronecker")]
 
